@@ -10,6 +10,7 @@ appended to a JSON-lines log.
 
 Usage: refsolver.py [--log FILE] [--delay-ms N] [--mode MODE] [--name NAME]
                     [--plan FILE]   (JSON {name: {delay, mode}}, re-read at every check-sat)
+                    [--fault FILE]  (JSON {head, reply}: one-shot, armed by creating the file)
 MODE: ok | unknown | error | crash | exit | hang | garbage | slowstart
 """
 import argparse
@@ -243,6 +244,21 @@ class Solver(object):
                 raise S.SmtError('syntax', 'command expected: %r' % text[:40])
             c = sx[0]
             head = c[0].val if isinstance(c[0], S.Tok) else None
+            if a.fault and os.path.exists(a.fault):
+                # one-shot fault armed by the harness (C15): the first
+                # command with the given head is not executed and gets the
+                # given reply ('unsupported' or an error), as the standard
+                # allows for any command a solver does not implement
+                try:
+                    with open(a.fault) as f:
+                        ft = json.load(f)
+                except (OSError, ValueError):
+                    ft = None
+                if ft and ft.get('head') in (head, '*'):
+                    os.unlink(a.fault)
+                    self.log.write(ev='fault', head=head)
+                    return self.reply(ft.get('reply', 'unsupported'), text,
+                                      legal=True, note='injected')
             if head == 'set-option':
                 if len(c) >= 3 and c[1].kind == 'kw':
                     if c[1].val == ':print-success':
@@ -394,6 +410,7 @@ def main():
     ap.add_argument('--mode', default='ok')
     ap.add_argument('--name', default='ref')
     ap.add_argument('--plan', default=None)
+    ap.add_argument('--fault', default=None)
     a = ap.parse_args()
     if a.mode == 'slowstart':
         time.sleep(0.3)
